@@ -327,6 +327,39 @@ fn check_sources(c: &SrcCase, ctx: &mut Ctx) -> Result<(), Fail> {
             Err(p) => fail!("panic", "{}: reader panics: {}", what, p),
         }
     }
+    // the complete reader's collecting read() over every truncation: all pairs when nothing is cut, an I/O error otherwise
+    {
+        let dbf = dbf_with_rows(n);
+        for t in 100..=len {
+            inner += 1;
+            let img = &enc.shp[..t];
+            let what = format!(".shp truncated to {} of {} bytes, Reader::new(..).read()", t, len);
+            let res = guard(|| -> Result<(), Fail> {
+                let sr = match ShapeReader::new(Cursor::new(img)) {
+                    Ok(r) => r,
+                    Err(e) => fail!("spurious-error", "{}: open fails: {}", what, err_str(&e)),
+                };
+                let dr = shapefile::dbase::Reader::new(Cursor::new(dbf.clone())).map_err(|e| Fail::new("harness/dbf", format!("{:?}", e)))?;
+                let mut rd = shapefile::Reader::new(sr, dr);
+                let complete = ends.iter().filter(|e| **e <= t).count();
+                match rd.read() {
+                    Ok(v) => {
+                        ensure!(complete == n, "cut-not-reported", "{}: returns Ok with {} pairs although record {} is cut", what, v.len(), complete);
+                        ensure!(v.len() == n, "complete-record-lost", "{}: {} of {} pairs", what, v.len(), n);
+                    }
+                    Err(e) => {
+                        ensure!(complete < n, "spurious-error", "{}: all records retained but read() fails: {}", what, err_str(&e));
+                        ensure!(is_io(&e), "cut-not-io-error", "{}: the cut record {} is reported as {:?}, not an I/O error", what, complete, e);
+                    }
+                }
+                Ok(())
+            });
+            match res {
+                Ok(r) => r?,
+                Err(p) => fail!("panic", "{}: reader panics: {}", what, p),
+            }
+        }
+    }
     // a sample of the same truncations on disk, read by path: next to the complete .shx (index-driven) and alone
     {
         let mut ts: Vec<usize> = vec![100, len.saturating_sub(1), len];
